@@ -42,7 +42,9 @@ def run(ctx):
                    'a `b`', 'case x in a) b;; esac', 'a <<E', '` `', '', '#c', 'a $(b', 'f() { a; }', "a 'b' \"c\" \\d", 'a & b; c | d', 'a ${b} ~ $1', 'é=1', 'a\\\n b']
     # the same names in different syntactic positions (a memo keyed too coarsely shows only then)
     inter = ['f x', 'function f if a; then b; fi', 'function f while a; do b; done', 'f if', 'echo f done', 'f a=1', 'f() { a; }', 'a=1 f', 'for f in a; do f; done', 'case f in f) f;; esac',
-             'f <<f\nf\n', '$(f) `f`', 'function f { f=1; }', 'if f; then f; fi', 'f $f ${f} "$f"', 'f | f && f']
+             'f <<f\nf\n', '$(f) `f`', 'function f { f=1; }', 'if f; then f; fi', 'f $f ${f} "$f"', 'f | f && f',
+             # calls that stop (or succeed) in an unusual tokenizer state, and calls that show a leaked state
+             ';;', 'a ;; b', 'a;;', 'case a in', 'case a in b) c;;', 'a $(b ;;& c)', 'echo `case a in`', 'a=1', 'x=1 y', 'a+=(b c) d', 'a )', '(a', 'a <<E', 'a "', 'if a; then', '{ a;', 'a |', 'for i in', 'time a', 'coproc a']
     pool_inputs += inter
     pool_inputs += [s for s in common.random_scripts(seed, 30 if quick else 300, mutate=1)]
     pool = []
@@ -51,6 +53,7 @@ def run(ctx):
         if rng.random() < 0.3: pool.append(('parse', dict(strictmode=False, proceedonerror=True, expansionlimit=1), s))
         if rng.random() < 0.2: pool.append(('single', dict(convertpos=True), s))
         if rng.random() < 0.2: pool.append(('split', {}, s))
+    pool += [('split', {}, a) for a in [';;', 'a ;; b', 'case a in', 'a )']]
     pool = [p for p in pool if all(ord(c) < 128 for c in p[2])]
     if ctx.get('replay'):
         rp = json.load(open(ctx['replay'])); pool = [tuple(x) for x in rp['history']]
@@ -73,6 +76,7 @@ def run(ctx):
     base_snap = snapshot(bl)
     base_keys = set(bl.tokenizer.sh_syntaxtab.keys())
     inter_pairs = [(('parse', {}, a), ('parse', {}, b)) for a in inter for b in inter if a != b]
+    inter_pairs += [(('split', {}, a), ('parse', {}, b)) for a in [';;', 'a ;; b', 'case a in', 'a )'] for b in ['a=1', 'x=1 y', 'f a=1', 'a+=(b c) d']]
     rng.shuffle(inter_pairs)
     nhist = (150 if quick else 3000) + len(inter_pairs)
     evaluations = 0; nontrivial = set()
